@@ -46,6 +46,9 @@ def units(tier):
     add("E+H (sibling in a shielded section when the failure happens)", [("E", "task"), ("H", "soon")], T=2)
     add("E+H, group scope shielded", [("E", "task"), ("H", "soon")], T=2, tg_shield=True)
     add("X+B body-raise, group scope shielded", [("X", "task"), ("B", "soon")], body="raise", tg_shield=True)
+    add("R+C outer-cancel, enclosing scope shielded", [("R", "task"), ("C", "soon")], env=("outer",), outer_shield=True)
+    add("C group-cancel then outer-cancel, enclosing scope shielded", [("C", "task")], env=("group", "outer"), J=1, outer_shield=True)
+    add("B+B body-fall outer-cancel, enclosing scope shielded", [("B", "task"), ("B", "soon")], env=("outer",), outer_shield=True)
     for kind in ("base", "falsy"):
         add("E+X exc=%s" % kind, [("E", "task"), ("X", "soon")], exc=kind)
         add("E+B body-raise exc=%s" % kind, [("E", "task"), ("B", "soon")], body="raise", exc=kind)
